@@ -289,6 +289,12 @@ class DORT(object):
                 # TODO: implement a convergence test if we want to avoid long computation
                 # when self.m_max is too high for the phase function.
 
+            if np.all(np.isnan(intensity_up_m)):
+                # the eigenvalue solver failed for this mode (error_handling='nan'): all the components of the result are
+                # undefined and the next modes can not be computed.
+                intensity_up[:] = np.nan
+                break
+
         if self.sensor.mode == 'P' and self.atmosphere_result is not None:
             intensity_up = self.atmosphere_result.tb_up + \
                 self.atmosphere_result.transmittance * intensity_up
